@@ -9,6 +9,11 @@ A job is a dict
                                                          # job's source directory `{SRC}`, which is also substituted in "root" and,
                                                          # with "subst": true, in the texts of "files"); default: cwd = source directory
      "hook": "props.c13:hook_export"}                    # optional observer run inside the worker
+  | {"steps": [job, job, ...]}                           # the jobs run one after the other in ONE process on ONE directory tree:
+                                                         # files of a later step replace those of an earlier one, everything else stays
+                                                         # ("out_dir": name of the step's output directory, default "out"; `{JOB}` in "root" /
+                                                         # substituted texts = the directory of the sequence; "share_api": true = the steps
+                                                         # configure one `API` object again and again instead of making a new one each)
 and the result
     {"ok": True, "files": {"<target-out-dir>/<relative path>": text}, "dep": [deprecation messages of the AST]}
   | {"ok": False, "stage": "parse"|"generate:<target>", "cls": exception class, "msg": str}
@@ -72,17 +77,21 @@ def _safe_str(e) -> str:
         return "<" + type(e).__name__ + ">"
 
 
-def run_job(job: dict, jobdir: Path) -> dict:
+_SHARED_API = []
+
+
+def run_job(job: dict, jobdir: Path, fresh_tree: bool = True) -> dict:
     from pydjinni import API
-    shutil.rmtree(jobdir, ignore_errors=True)
+    if fresh_tree:
+        shutil.rmtree(jobdir, ignore_errors=True)
     src = jobdir / "src"
     for rel, text in job["files"].items():
         p = src / rel
         p.parent.mkdir(parents=True, exist_ok=True)
-        p.write_text(text.replace("{SRC}", str(src)) if job.get("subst") else text, encoding="utf-8", newline="")
+        p.write_text(text.replace("{SRC}", str(src)).replace("{JOB}", str(jobdir)) if job.get("subst") else text, encoding="utf-8", newline="")
     for rel in job.get("dirs", ()):
         (src / rel).mkdir(parents=True, exist_ok=True)
-    out = jobdir / "out"
+    out = jobdir / job.get("out_dir", "out")
     gen_cfg = deep_merge(DEFAULT_CONFIG, job.get("config", {}))
     for k in gen_cfg:
         gen_cfg[k]["out"] = str(out / k)
@@ -93,7 +102,13 @@ def run_job(job: dict, jobdir: Path) -> dict:
     os.chdir(cwd)
     try:
         try:
-            ctx = API().configure(options={"generate": gen_cfg}).parse(Path(job["root"].replace("{SRC}", str(src))))
+            if job.get("share_api"):
+                if not _SHARED_API:
+                    _SHARED_API.append(API())
+                api = _SHARED_API[0]
+            else:
+                api = API()
+            ctx = api.configure(options={"generate": gen_cfg}).parse(Path(job["root"].replace("{SRC}", str(src)).replace("{JOB}", str(jobdir))))
         except BaseException as e:  # noqa
             if isinstance(e, (_Hang, KeyboardInterrupt)):
                 raise
@@ -151,8 +166,21 @@ def _worker(args):
     out = []
     for n, job in enumerate(chunk):
         signal.alarm(timeout)
+        jobdir = Path(base) / f"w{idx}_j{n}"
         try:
-            out.append(run_job(job, Path(base) / f"w{idx}_j{n}"))
+            if "steps" in job:
+                done = []
+                try:
+                    for k, step in enumerate(job["steps"]):
+                        done.append(run_job({**step, "keep": True}, jobdir, fresh_tree=(k == 0)))
+                except _Hang:
+                    os.chdir("/")
+                    done.append({"ok": False, "stage": "hang", "cls": "Timeout", "msg": f"no result within {timeout}s"})
+                done += [{"ok": False, "stage": "not-run", "cls": "Timeout", "msg": "an earlier step did not end"}] * (len(job["steps"]) - len(done))
+                out.append({"steps": done})
+                shutil.rmtree(jobdir, ignore_errors=True)
+            else:
+                out.append(run_job(job, jobdir))
         except _Hang:
             os.chdir("/")
             out.append({"ok": False, "stage": "hang", "cls": "Timeout", "msg": f"no result within {timeout}s"})
@@ -161,7 +189,9 @@ def _worker(args):
     return out
 
 
-def run_many(base: Path, jobs: list[dict], timeout: int = 30, workers: int = 14) -> list[dict]:
+def run_many(base: Path, jobs: list[dict], timeout: int = 30, workers: int = 14, fresh_process: bool = False) -> list[dict]:
+    """results in the order of `jobs`. The jobs are handed out one by one (multi-step jobs first) to a pool of forked worker processes;
+    a process runs many jobs one after the other, each in a directory of its own — `fresh_process`: one job per process"""
     import multiprocessing as mp
     if not jobs:
         return []
@@ -169,11 +199,10 @@ def run_many(base: Path, jobs: list[dict], timeout: int = 30, workers: int = 14)
     from pydjinni import API
     API()
     workers = max(1, min(workers, len(jobs)))
-    chunks = [jobs[i::workers] for i in range(workers)]
-    with mp.get_context("fork").Pool(workers) as pool:
-        res = pool.map(_worker, [(str(base), i, ch, timeout) for i, ch in enumerate(chunks)])
+    order = sorted(range(len(jobs)), key=lambda i: -len(jobs[i].get("steps", ())))
+    with mp.get_context("fork").Pool(workers, maxtasksperchild=1 if fresh_process else None) as pool:
+        res = pool.map(_worker, [(str(base), i, [jobs[i]], timeout) for i in order], chunksize=1)
     out = [None] * len(jobs)
-    for w, r in enumerate(res):
-        for j, x in enumerate(r):
-            out[w + j * workers] = x
+    for i, r in zip(order, res):
+        out[i] = r[0]
     return out
